@@ -238,9 +238,15 @@ func runCheck(repo, verif, prop, tier string, workers int, noReplay bool) int {
 				defer func() { <-sem }()
 				rp := writeReplay(rdir, prop, tier, o.v, o.run, knownIDs)
 				o.replayPath = rp
-				out, derr := runReplay(repo, bin, o.run.Pkg, rp)
-				o.output = out
-				o.reproduced, o.diverged, o.nativeDiag = judgeReplay(o.v, out, derr)
+				tries := 1
+				if o.v.Kind == "race" {
+					tries = 25 // free-running goroutines under the native race detector
+				}
+				for t := 0; t < tries && !o.reproduced; t++ {
+					out, derr := runReplay(repo, bin, o.run.Pkg, rp)
+					o.output = out
+					o.reproduced, o.diverged, o.nativeDiag = judgeReplay(o.v, out, derr)
+				}
 			}(o)
 		}
 		wg.Wait()
@@ -341,6 +347,10 @@ func writeReplay(dir, prop, tier string, v interp.Violation, run HRun, known map
 		"property": prop, "harness": v.Harness, "tier": tier, "nondet": v.Nondet, "params": run.Params, "known": ks,
 		"assert": map[string]any{"label": v.Label, "kind": v.Kind, "diag": v.Diag, "msg": v.Msg},
 		"sched":  run.Sched, "schedule": v.Schedule,
+	}
+	if v.Kind == "race" {
+		// races are confirmed by the native race detector on free-running goroutines
+		doc["schedule"] = nil
 	}
 	b, _ := json.MarshalIndent(doc, "", " ")
 	h := sha1.Sum(b)
@@ -498,8 +508,19 @@ func judgeReplay(v interp.Violation, out string, runErr error) (reproduced, dive
 		}
 	case "race":
 		if strings.Contains(out, "WARNING: DATA RACE") {
-			diag["msg"] = v.Label
-			return true, false, diag
+			// the native report must involve the functions of the symbolic report
+			fns := raceFuncs(v.Label)
+			ok := true
+			for _, f := range fns {
+				if !strings.Contains(out, f) {
+					ok = false
+				}
+			}
+			if ok {
+				diag["msg"] = v.Label
+				diag["funcs"] = strings.Join(fns, ",")
+				return true, false, diag
+			}
 		}
 	}
 	return false, false, diag
@@ -644,4 +665,23 @@ func cmdReplay(args []string) {
 	if strings.Contains(out, "VERIF-ASSERT-FAIL") || strings.Contains(out, "VERIF-PANIC") {
 		os.Exit(1)
 	}
+}
+
+// raceFuncs extracts the short function names from a race label
+// "race: R (*pkg.T).m (file:line) <-> W pkg.f (file:line)".
+func raceFuncs(label string) []string {
+	var out []string
+	for _, part := range strings.Split(strings.TrimPrefix(label, "race: "), " <-> ") {
+		f := strings.Fields(part)
+		if len(f) < 2 {
+			continue
+		}
+		name := f[1]
+		if i := strings.LastIndex(name, "."); i >= 0 {
+			name = name[i+1:]
+		}
+		name = strings.TrimSuffix(name, "$1")
+		out = append(out, name+"(")
+	}
+	return out
 }
